@@ -1088,6 +1088,7 @@ def run(ctx):
     rule_generativity(ctx)
     from . import c03 as _c03
     _c03.rule_opened_skolems(ctx)
+    _c03.rule_binder_shadowing(ctx)
     from . import c04
     from .. import golden
     ctx.rule("coverage-validator", "the validator that makes `no matching arm` and `pattern match failed` unreachable performs its audited "
